@@ -187,3 +187,25 @@ Theorem C07_smooth_classes_marginal_cost_monotone : forall n b cb k (p x y : lis
   convex_on (in_box_R b) (fun s => leaf_cost (Build_leafdev n b cb k) s p) -> in_box_R b x -> in_box_R b y ->
   0 <= dot (vsub (leaf_deriv (Build_leafdev n b cb k) y p) (leaf_deriv (Build_leafdev n b cb k) x p)) (vsub y x).
 Proof. exact smooth_convex_class_monotone. Qed.
+
+(* ---- IDevice with ANY real exponent b >= 1 (the executable instance and C07_idevice_natural_exponent cover integers): the power
+   curve c * q ** b is convex where the scaled flow q stays positive, i.e. for a > 0 (q falls from 1 to a).  A differentiable
+   function with non-decreasing derivative on an interval is convex there; u ** e has derivative e * u ** (e - 1).
+   Not covered (full statement for the record): a = 0 with a non-integer exponent - there q reaches 0 on the upper bound, where the
+   real-number model of x ** b (Rpower, ln 0 := 0) does not describe the floating-point 0.0 ** b; exponents in (0,1) are the
+   open finding idevice-b-below-one.  Proofs/RealConvex.v. ---- *)
+From Coquelicot Require Import Coquelicot.
+From DK.Proofs Require Import RealConvex.
+Theorem C07_nondecreasing_derivative_means_convex : forall (f f' : R -> R) (lo hi : R),
+  (forall u, lo <= u <= hi -> is_derive f u (f' u)) -> (forall u v, lo <= u -> u <= v -> v <= hi -> f' u <= f' v) -> sconvex_on lo hi f.
+Proof. exact sconvex_of_monotone_derivative. Qed.
+Theorem C07_real_power_convex_on_positive_reals : forall e lo hi, 1 <= e -> 0 < lo -> sconvex_on lo hi (fun t => Rpw t e).
+Proof. exact sconvex_Rpw. Qed.
+Theorem C07_kernel_abc_convex_any_real_exponent : forall a b c xl xh, 0 < a -> 0 <= c -> 1 <= b -> xl <= xh ->
+  sconvex_on xl xh (fun t => abc_cost (A:=R) t a b c xl xh).
+Proof. exact sconvex_abc_real. Qed.
+Theorem C07_idevice_any_real_exponent_partial : forall n b cb a bp c p,
+  (forall i, (i < List.length b)%nat ->
+     ((exists k, pnth bp i = Rnat k) /\ 0 <= pnth a i \/ 1 <= pnth bp i /\ 0 < pnth a i) /\ 0 <= pnth c i /\ lo b i <= hi b i) ->
+  convex_on (in_box_R b) (fun s => leaf_cost (Build_leafdev n b cb (KI a bp c)) s p).
+Proof. exact convex_idevice_real. Qed.
